@@ -22,6 +22,7 @@ from ..extract import where
 from ..facts import FactFlow
 from ..harness import Harness
 from ..interp import Obj, Raised, StepLimit
+from . import xmlcommon as X
 from ..models import ccsds_bytes, file_source, source_externals
 
 CLI = "cli.py"
@@ -218,19 +219,24 @@ def real_framer(ctx: Ctx):
                    f"expected a listing of {npk} packets without a traceback", where=where(fi, fi.node))
     # parse command on the same kinds of files (definition stubbed out to header-only parsing through the real generator)
     fp = prog.func(f"{CLI}::parse")
-    for name, data in (("empty file", b""), ("2 stray bytes", b"\x01\x02")):
+    for name, data in (("empty file", b""), ("2 stray bytes", b"\x01\x02"), ("3 packets", one * 3), ("2 packets and a cut third", one * 2 + one[:7])):
         site = f"{fp.key}::real-framer::{name}"
         rec = Rec()
         ext = rec.ext(opener=lambda *a, data=data, **k: file_source(data))
 
         def from_xtce(*a, **k):
-            def pg(f, **kw):
-                hh = Harness(prog, source_externals(), max_steps=60000)
-                return hh.ev("list(ccsds_generator(f))", "packets.py", f=f)
-            return Obj(None, packet_generator=pg)
+            # a header-only definition assembled by the library's own constructors: `spp parse` then runs the library's real
+            # packet_generator (and the real framer) on the file, only the XML loading is stubbed
+            hh = Harness(prog, source_externals(), max_steps=200000)
+            try:
+                return hh.ev(X.minimal_header_src(), X.DEF)
+            except (Unsupported, Raised):
+                def pg(f, **kw):
+                    return hh.ev("list(ccsds_generator(f))", "packets.py", f=f)
+                return Obj(None, packet_generator=pg)
         ext["XtcePacketDefinition"] = Obj(None, from_xtce=from_xtce)
         h = Harness(prog, ext, max_steps=60000)
-        for idx in (None, 0, 1):
+        for idx in (None, 0, 1, 2, 3, 7):
             try:
                 kind, got = h.outcome("parse(pf, df, packet=idx, max_items=20, max_string=40, skip_header_bytes=0)", CLI,
                                       pf="P", df="X", idx=idx)
